@@ -491,20 +491,53 @@ pub fn run(sc: &Value) -> Vec<Value> {
 
 pub fn main_cexec(args: &[String]) -> i32 {
     use std::io::Write;
+    use std::sync::atomic::{AtomicU64, Ordering};
     let inp = std::fs::read_to_string(&args[0]).expect("read scenarios");
-    let mut out = std::io::BufWriter::new(std::fs::File::create(&args[1]).expect("create trace"));
+    let out = Arc::new(std::sync::Mutex::new(std::io::BufWriter::new(std::fs::File::create(&args[1]).expect("create trace"))));
     std::panic::set_hook(Box::new(|_| {}));
+    // a scenario that makes no progress for 30 s (handles blocking each other - a lock shared between clones and taken while
+    // another handle runs) is recorded as CStall and ends the run: a stall is an observation, not tool trouble
+    let progress = Arc::new(AtomicU64::new(0));
+    let current = Arc::new(std::sync::Mutex::new(String::new()));
+    {
+        let (progress, current, out) = (progress.clone(), current.clone(), out.clone());
+        std::thread::spawn(move || {
+            let mut last = (0u64, std::time::Instant::now());
+            loop {
+                std::thread::sleep(std::time::Duration::from_millis(500));
+                let p = progress.load(Ordering::SeqCst);
+                if p != last.0 {
+                    last = (p, std::time::Instant::now());
+                } else if last.1.elapsed() > std::time::Duration::from_secs(30) {
+                    let sc = current.lock().map(|s| s.clone()).unwrap_or_default();
+                    if let Ok(mut o) = out.lock() {
+                        let _ = writeln!(o, "{}", json!({"ev": "Reset", "sc": sc}));
+                        let _ = writeln!(o, "{}", json!({"ev": "CStall", "sc": sc, "r": "stall"}));
+                        let _ = o.flush();
+                    }
+                    eprintln!("cexec: scenario {} stalled", sc);
+                    std::process::exit(0);
+                }
+            }
+        });
+    }
     let mut n = 0;
     for line in inp.lines() {
         if line.trim().is_empty() {
             continue;
         }
         let sc: Value = serde_json::from_str(line).expect("scenario json");
-        for e in run(&sc) {
-            writeln!(out, "{}", e).unwrap();
+        *current.lock().unwrap() = sc["sc"].as_str().unwrap_or("?").to_string();
+        let evs = run(&sc);
+        let mut o = out.lock().unwrap();
+        for e in evs {
+            writeln!(o, "{}", e).unwrap();
         }
+        drop(o);
+        progress.fetch_add(1, Ordering::SeqCst);
         n += 1;
     }
+    out.lock().unwrap().flush().unwrap();
     eprintln!("cexec: {} scenarios", n);
     0
 }
